@@ -144,6 +144,9 @@ def explicit_cases():
         dict(base, view="samples", a=-3, b=None),
         dict(base, view="samples", a=2, b=-9),
         dict(base, view="samples", a=-(10**30), b=10**30),
+        dict(base, view="seconds", a=0, b=1 << 1024),
+        dict(base, view="seconds", a=-(10**400), b=None),
+        dict(base, view="millis", a=-(1 << 1024), b=1 << 1024),
         dict(base, view="seconds", a=0.25, b=0.55),
         dict(base, view="seconds", a=0.25, b=0.55, temp="gc"),
         dict(base, view="millis", a=100, b=-100, temp="drop"),
@@ -181,6 +184,7 @@ def strategy(draw):
                 salt=draw(st.integers(0, 10**6)))
     view = draw(st.sampled_from(["samples", "seconds", "millis"]))
     ints = st.one_of(st.none(), st.integers(-N - 3, N + 3), st.integers(),
+                     st.sampled_from([1 << 1024, -(1 << 1024), 10**400, -(10**400), (1 << 1023) + 1]),
                      st.sampled_from([N - 1, N, N + 1, -N, -N - 1, -N + 1, N // 2, 255, 256, 65535, 65536, -256, -65536]))
     if view == "samples":
         bound = ints
@@ -188,7 +192,8 @@ def strategy(draw):
         near = st.builds(lambda k, e: (k + e) / sr, st.integers(-N - 3, N + 3),
                          st.sampled_from([0.0, 0.5, -0.5, 0.49, 0.51, 1e-9, -1e-9, 0.25]))
         bound = st.one_of(st.none(), near, st.floats(-1e15, 1e15, allow_nan=False),
-                          st.integers(-5, 5), st.floats(-5, 5, allow_nan=False))
+                          st.integers(-5, 5), st.floats(-5, 5, allow_nan=False),
+                          st.sampled_from([1 << 1024, -(1 << 1024), 10**400]))  # ints too big for a float
     else:
         span = (N * 1000) // sr + 3
         bound = st.one_of(st.none(), st.integers(-span, span), st.integers(-10**9, 10**9))
